@@ -56,6 +56,7 @@ func VerifC04_q_resyncVsReincarnation() {
 	}
 	w.windowAt = nondetInt(0, 10)
 	w.resync()
+	w.finishInterference()
 	ran := w.interferer == nil
 	w.interferer = nil
 	verifReach("resync-returned")
